@@ -56,7 +56,7 @@ def fail(oracle, detail, msg):
 
 
 def nontrivial(res):
-    return res["probes"].get("attempts", 0) > 0
+    return res["probes"].get("attempts", 0) > 0 or res["probes"].get("exhaustive_positions", 0) > 0
 
 
 def vectors():
@@ -311,6 +311,43 @@ def _execute(plan, tr):
                     fail("V5", "recover_depends_on_history", f"ShareSet.recover(passphrase) on a reused object differs from a fresh object (passphrase sequence {st['passes']})")
                 if ph is None and a != splits[s]["ent"]:
                     fail("V4", "wrong_secret_reuse", "recover with the right passphrase on a reused object did not return the secret")
+        elif op == "subst_all":
+            # a custodian's stored share with every possible other word at one position (exhaustive over the 1023 alternatives),
+            # optionally with a second/third fixed substitution elsewhere: the RS1024 checksum must reject each of them
+            sidx = st["split"]
+            if sidx >= len(splits):
+                continue
+            sh = splits[sidx]["shares"]
+            base = sh[st["idx"] % len(sh)].split()
+            W = words()
+            pos = st["pos"] % len(base)
+            extra = []
+            r2 = plan_rng(st.get("seed", 0), "sa")
+            for _ in range(st.get("extra", 0)):
+                p2 = r2.randrange(len(base))
+                if p2 != pos:
+                    extra.append((p2, W[(W.index(base[p2]) + 1 + r2.randrange(1023)) % 1024]))
+            tr.fault("corrupt_words_exhaustive_position")
+            accepted = []
+            for w_i in range(1024):
+                if W[w_i] == base[pos]:
+                    continue
+                ws = list(base)
+                ws[pos] = W[w_i]
+                for p2, w2 in extra:
+                    ws[p2] = w2
+                tr.oracle("V3_checksum")
+                try:
+                    Share.parse(" ".join(ws))
+                    accepted.append(W[w_i])
+                except Exception:
+                    pass
+            tr.ev("custodian", "subst_all", f"{pos}|{len(extra)}|{len(accepted)}")
+            tr.probe("exhaustive_positions")
+            if accepted:
+                where = "checksum_word" if pos >= len(base) - 3 else "data_word"
+                fail("V3", f"checksum_accepts_{1 + len(extra)}_word_substitution_{where}", f"Share.parse accepts {len(accepted)} of the 1023 single-word substitutions at word {pos} of a {len(base)}-word share"
+                     f"{' (plus ' + str(len(extra)) + ' other substituted words)' if extra else ''}, e.g. '{accepted[0]}' for '{base[pos]}'")
         elif op == "vector":
             vec = vectors()[st["case"] % len(vectors())]
             name, shares, expected = vec
@@ -418,6 +455,8 @@ def generate(ch, tier, prop):
         steps.append({"op": "reuse", "passes": ch.choice(seqs)})
     if ch.chance(0.3):
         steps.insert(ch.randrange(0, len(steps) + 1), {"op": "attempt"})
+    if "corrupt" in kinds and ch.chance(0.15):
+        steps.append({"op": "subst_all", "split": 0, "idx": ch.randrange(16), "pos": ch.randrange(40), "extra": ch.choice([0, 0, 1, 2]), "seed": ch.randrange(1 << 30)})
     plan = {"splits": splits, "steps": steps}
     if ch.chance(0.1):
         plan["recover_pass"] = ch.bytes(ch.randrange(0, 5)).hex()
@@ -444,6 +483,12 @@ def enumerate_plans(tier, prop, seed):
     for case in range(10):
         for s in range(3 if tier == "quick" else 12):
             yield {"splits": [], "steps": [{"op": "vector", "case": case, "seed": s + seed, "drop": True}], "final_attempt": False, "enum": "vectors"}
+    # every position x every word (exhaustive single substitutions) of a 128-bit and a 256-bit share; thorough: also with 1-2 further substitutions
+    for bits, nwords in ((128, 20), (256, 33)):
+        for pos in range(nwords):
+            for extra in ((0,) if tier == "quick" else (0, 1, 2)):
+                yield {"splits": [{"bits": bits, "eseed": 91 + seed, "k": 2, "n": 3, "pass": "", "exp": 0, "rng": {"mode": "seeded", "seed": 17 + seed}}],
+                       "steps": [{"op": "subst_all", "split": 0, "idx": pos % 3, "pos": pos, "extra": extra, "seed": pos * 31 + seed}], "final_attempt": False, "enum": "subst-exhaustive"}
     # 1..3 word substitutions at sampled positions of one share
     for nw in (1, 2, 3):
         for s in range(20 if tier == "quick" else 300):
